@@ -159,17 +159,27 @@ type Opts struct {
 	Out    string
 	Replay string
 	Scale  int
+	Prop   string
+}
+
+var flags Opts
+
+func init() {
+	// Registered at init so that harnesses built as test binaries (go test -c,
+	// needed for testing/synctest) accept the same flags.
+	flag.Uint64Var(&flags.Seed, "seed", 1, "PRNG seed")
+	flag.StringVar(&flags.Tier, "tier", "quick", "quick|thorough")
+	flag.StringVar(&flags.Out, "out", "", "result file")
+	flag.StringVar(&flags.Replay, "replay", "", "replay file (JSON Finding)")
+	flag.IntVar(&flags.Scale, "scale", 1, "multiplier for the number of histories")
+	flag.StringVar(&flags.Prop, "prop", "", "property the run is for (harnesses serving several)")
 }
 
 func ParseFlags() Opts {
-	var o Opts
-	flag.Uint64Var(&o.Seed, "seed", 1, "PRNG seed")
-	flag.StringVar(&o.Tier, "tier", "quick", "quick|thorough")
-	flag.StringVar(&o.Out, "out", "", "result file")
-	flag.StringVar(&o.Replay, "replay", "", "replay file (JSON Finding)")
-	flag.IntVar(&o.Scale, "scale", 1, "multiplier for the number of histories")
-	flag.Parse()
-	return o
+	if !flag.Parsed() {
+		flag.Parse()
+	}
+	return flags
 }
 
 func NewResult(name string, o Opts, rule string) *Result {
